@@ -29,14 +29,14 @@ AllF == {"none", "pre", "post"}
 C12Quick == {Cfg(3, 3, 1, FALSE, FALSE, {"none"}, TRUE), Cfg(3, 3, 2, FALSE, FALSE, {"none"}, FALSE)}
 C12Tiny1 == {Cfg(3, 3, 1, FALSE, FALSE, {"none"}, FALSE)}
 C12Tiny2F == {Cfg(3, 3, 2, FALSE, FALSE, {"none", "pre"}, FALSE)}
-C12Thorough == {Cfg(3, 3, 2, FALSE, FALSE, {"none"}, TRUE), Cfg(4, 4, 1, FALSE, FALSE, {"none"}, TRUE), Cfg(4, 4, 2, FALSE, FALSE, {"none"}, TRUE),
+C12Thorough == {Cfg(3, 3, 2, FALSE, FALSE, {"none"}, TRUE), Cfg(4, 4, 1, FALSE, FALSE, {"none"}, TRUE),
                 Cfg(3, 4, 1, FALSE, FALSE, {"none"}, TRUE), Cfg(4, 3, 1, FALSE, FALSE, {"none"}, TRUE),
                 Cfg(3, 3, 1, FALSE, TRUE, AllF, FALSE), CfgF(3, 3, 2, FALSE, TRUE, AllF, FALSE, "SDMF")}
 C12W3 == {Cfg(3, 3, 1, FALSE, FALSE, {"none"}, FALSE), Cfg(3, 3, 2, FALSE, FALSE, {"none"}, FALSE)}
 C47Quick == {CfgF(ns, 3, 2, cr, ~cr, AllF, TRUE, fmt) : ns \in 1..3, cr \in BOOLEAN, fmt \in {"SDMF", "MDMF"}}
 C47Thorough == {CfgF(ns, 3, 2, cr, ~cr, AllF, TRUE, fmt) : ns \in 1..5, cr \in BOOLEAN, fmt \in {"SDMF", "MDMF"}}
                \cup {CfgF(4, 4, 2, cr, ~cr, AllF, TRUE, fmt) : cr \in BOOLEAN, fmt \in {"SDMF", "MDMF"}}
-C47W2 == {CfgF(3, 3, k, FALSE, TRUE, AllF, FALSE, fmt) : k \in 1..2, fmt \in {"SDMF", "MDMF"}}
+C47W2 == {CfgF(3, 3, 2, FALSE, FALSE, AllF, FALSE, fmt) : fmt \in {"SDMF", "MDMF"}}
 
 VARIABLES c,        \* the configuration of this behaviour (chosen in Init, constant along it)
           srv,      \* server -> Storage state
